@@ -201,6 +201,15 @@ impl<F: Fam> Ctx<F> {
     }
 
     fn z_check(&mut self) -> Result<(), Fail> {
+        self.z_check_tagged(&[])
+    }
+
+    /// `extra`: the properties that own the operation just made (its effect is what is checked)
+    fn z_check_tagged(&mut self, extra: &[Prop]) -> Result<(), Fail> {
+        let mut t1 = vec![C01];
+        t1.extend_from_slice(extra);
+        let mut t13 = vec![C01, C13];
+        t13.extend_from_slice(extra);
         for i in 0..2 {
             let (len, cap, hook, n_iter) = {
                 let m = &self.z.maps[i];
@@ -208,7 +217,7 @@ impl<F: Fam> Ctx<F> {
             };
             let want = self.z.counts[i];
             if len != want || n_iter != want || (len == 0) != self.z.maps[i].is_empty() {
-                fail!(self, [C01], "zst-len", "zero-sized map {}: len() = {}, iter() yields {}, reference count {}", i, len, n_iter, want);
+                return Err(self.mkfail(t1, "zst-len", format!("zero-sized map {}: len() = {}, iter() yields {}, reference count {}", i, len, n_iter, want), String::new()));
             }
             if cap < len {
                 fail!(self, [C04], "capacity-below-len", "zero-sized map: capacity() = {} < len() = {}", cap, len);
@@ -224,7 +233,7 @@ impl<F: Fam> Ctx<F> {
             let found = self.z.maps[i].get(&ZK::new()).is_some();
             let contains = self.z.maps[i].contains_key(&ZK::new());
             if found != (want > 0) || contains != (want > 0) {
-                fail!(self, [C01], "zst-get", "zero-sized map: get finds = {}, contains_key = {}, reference count {}", found, contains, want);
+                return Err(self.mkfail(t1, "zst-get", format!("zero-sized map: get finds = {}, contains_key = {}, reference count {}", found, contains, want), String::new()));
             }
         }
         let (len, cap, hook, n_iter) = {
@@ -232,7 +241,7 @@ impl<F: Fam> Ctx<F> {
             (s.len(), s.capacity(), s.verif_state(), s.iter().count())
         };
         if len != self.z.set_count || n_iter != len || self.z.set.contains(&ZK::new()) != (len > 0) {
-            fail!(self, [C01, C13], "zst-len", "zero-sized set: len() = {}, iter() yields {}, reference count {}", len, n_iter, self.z.set_count);
+            return Err(self.mkfail(t13, "zst-len", format!("zero-sized set: len() = {}, iter() yields {}, reference count {}", len, n_iter, self.z.set_count), String::new()));
         }
         if cap < len {
             fail!(self, [C04], "capacity-below-len", "zero-sized set: capacity() = {} < len() = {}", cap, len);
@@ -602,7 +611,15 @@ impl<F: Fam> Ctx<F> {
                 }
             }
         }
-        self.z_check()
+        let owners: &[Prop] = match *op {
+            ZOp::Retain(..) | ZOp::DrainFilter(..) | ZOp::SetRetain(_) => &[C09],
+            ZOp::Iterate | ZOp::Drain(..) | ZOp::IntoIter(_) | ZOp::SetIterate | ZOp::SetDrain(_) => &[C08],
+            ZOp::Reserve(_) | ZOp::TryReserve(_) | ZOp::ShrinkToFit | ZOp::ShrinkTo(_) | ZOp::SetReserve(_) | ZOp::SetShrink => &[C10],
+            ZOp::CloneTo | ZOp::CloneFrom | ZOp::SetClone => &[C11],
+            ZOp::EntryReplace(_) | ZOp::RawReplace(_) | ZOp::EntryRemove | ZOp::RawRemove | ZOp::OrInsert => &[C12],
+            _ => &[],
+        };
+        self.z_check_tagged(owners)
     }
 
     /// end of case: drop the zero-sized collections, every object must be gone
